@@ -588,8 +588,8 @@ def run(prop, tier, keep_replays=False):
     controls = []
     order = list(range(len(traces)))
     rnd.shuffle(order)
-    for i in order:
-        if len(controls) >= 30:
+    for i in order * (1 + int(os.environ.get("VERIF_CONTROLS", 30)) // max(1, len(order))):
+        if len(controls) >= int(os.environ.get("VERIF_CONTROLS", 30)):
             break
         m = mutate(traces[i], prop, rnd)
         if m is not None:
